@@ -683,6 +683,7 @@ type stageExec struct {
 	failedAt  map[string]int // name -> op number of a `status` answer "failed" with only queries since
 	servedUnrecovered bool // a request was served between a crash and the next recover
 	lastCrash, lastRecover, lastSettle int // op numbers of the last cut/crash, recover, settle
+	lastTouch map[string]int // token -> number of the last non-query op that mentions it (over-approximates "named in a request")
 	gaveUp    bool                  // cleanwaiting ran: the order may have been given up for cycles
 	crashes   int                   // crash / cut operations in this case
 	confirmed map[string]bool       // names ever answered passed / waiting
@@ -810,6 +811,40 @@ func (e *stageExec) Rewrite(op []string) []string {
 	return op
 }
 
+// oracleHeldTimer (C04, release half): a file parked behind a predecessor the receiver knows nothing about (no
+// staged file of it, not named in any request since this Stage object was created, so no cache entry and no path
+// lock) is released only by the search of the receive log, which goes one window further back each time the retry
+// timer fires. With the receiver quiescent such a file must have a retry timer pending; otherwise nothing will ever
+// look for the predecessor's record again and the file stays held for ever (the sender was told "waiting" and has
+// marked it done).
+func (e *stageExec) oracleHeldTimer(name string) {
+	r := e.rig
+	if e.lastSettle != e.nOps-1 || e.lastCrash > e.lastRecover || r.st == nil {
+		return
+	}
+	base := filepath.Join(r.root, name)
+	if _, err := os.Stat(base + ".wait"); err != nil {
+		return
+	}
+	var c sts.Partial
+	b, err := os.ReadFile(base + ".cmp")
+	if err != nil || json.Unmarshal(b, &c) != nil || c.Prev == "" || c.Prev == name {
+		return
+	}
+	if t, ok := e.lastTouch[c.Prev]; ok && t > e.lastCrash {
+		return
+	}
+	for _, ext := range []string{".part", ".full", ".wait", ".cmp"} {
+		if _, err := os.Stat(filepath.Join(r.root, c.Prev) + ext); err == nil {
+			return
+		}
+	}
+	if r.st.VerifState(c.Prev) != -1 { // stateUnknown
+		return
+	}
+	e.fails = append(e.fails, fmt.Sprintf("held-without-timer: %s is held behind %s, which the receiver knows nothing about, and no retry timer is pending: the log search for the predecessor never continues", esc(name), esc(c.Prev)))
+}
+
 func (e *stageExec) partial(n, renamed, prev, size, hash, beg, end string) (*sts.Partial, bool) {
 	sz, err1 := strconv.ParseInt(size, 10, 64)
 	b, err2 := strconv.ParseInt(beg, 10, 64)
@@ -859,6 +894,16 @@ func (e *stageExec) Do(op []string) string {
 	case "status", "received", "receivedn", "scan", "observe", "mem":
 	default:
 		e.failedAt = map[string]int{} // anything but a query may legitimately change what the receiver holds
+	}
+	switch op[0] {
+	case "status", "received", "receivedn", "scan", "observe", "mem", "firetimer", "settle", "oldlog":
+	default:
+		if e.lastTouch == nil {
+			e.lastTouch = map[string]int{}
+		}
+		for _, t := range op[1:] {
+			e.lastTouch[unesc(t)] = e.nOps
+		}
 	}
 	switch op[0] {
 	case "prepare", "recv", "ropen", "racerecv":
@@ -1155,6 +1200,7 @@ func (e *stageExec) do1(op []string) string {
 		if r.st.VerifFireTimer(unesc(op[1])) {
 			return "ok"
 		}
+		e.oracleHeldTimer(unesc(op[1]))
 		return "err-no-timer"
 	case len(op) == 2 && op[0] == "consume":
 		t := unesc(op[1])
@@ -1230,7 +1276,28 @@ func (e *stageExec) do1(op []string) string {
 		}
 		done := make(chan struct{})
 		st := r.st
-		go func() { st.Recover(); close(done) }()
+		// C15: from the moment Recover returns the gatekeeper reports ready and requests are processed; every
+		// complete file found on the stage must have been through its validation at that very moment
+		early := ""
+		go func() {
+			st.Recover()
+			for _, name := range expect {
+				if _, err := os.Stat(filepath.Join(r.root, name) + ".full"); err == nil && st.VerifState(name) == 0 { // stateReceived
+					early = fmt.Sprintf("ready-before-validated: Recover returned (the stage reports ready=%v) while %s, found complete on the stage, has not been validated yet", st.Ready(), esc(name))
+					break
+				}
+			}
+			close(done)
+		}()
+		defer func() {
+			select {
+			case <-done:
+				if early != "" {
+					e.fails = append(e.fails, early)
+				}
+			case <-time.After(2 * time.Second):
+			}
+		}()
 		for _, name := range expect {
 			key := "process:" + name
 			r.mu.Lock()
@@ -1580,7 +1647,23 @@ func (e *stageExec) observe() string {
 	var out []string
 	for _, k := range []string{"part", "full", "wait", "cmp", "cmplck", "final", "finallck", "log"} {
 		items := sec[k]
-		sort.Strings(items)
+		if k == "log" {
+			sort.Strings(items)
+		} else {
+			// by name (the model's order), not by the text "name=…" ('.' sorts before '=')
+			key := func(s string) string {
+				if i := strings.IndexByte(s, '='); i >= 0 {
+					return s[:i]
+				}
+				return s
+			}
+			sort.SliceStable(items, func(i, j int) bool {
+				if a, b := key(items[i]), key(items[j]); a != b {
+					return a < b
+				}
+				return items[i] < items[j]
+			})
+		}
 		out = append(out, k+"{"+strings.Join(items, ";")+"}")
 	}
 	s := strings.Join(out, " ")
